@@ -15,7 +15,7 @@ ALL = ["C%02d" % i for i in range(1, 18)]
 
 def sh(cmd, cwd, timeout=300):
     try:
-        p = subprocess.run(cmd, cwd=cwd, env=ENV, capture_output=True, text=True, timeout=timeout)
+        p = subprocess.run(cmd, cwd=cwd, env=ENV, capture_output=True, text=True, errors='replace', timeout=timeout)
         return p.returncode, p.stdout + p.stderr
     except subprocess.TimeoutExpired:
         return 124, "timeout"
